@@ -11,6 +11,8 @@ CLAIMED = {
          "lockset / typestate (with correlated-branch pruning) / dominance rules over clang CFGs"),
  "C17": ("Static rules over source/memtrace.c: order and pairing of track/untrack around the wrapped allocator in all four vtable functions, amount added == size stored, amount subtracted == stored size read before destroy and followed by removal, lockset on both tables (unlock-only-when-held, no lock at exit), level gating of every tracer field, dump reaches no accounting mutation. Decides pairing and lock discipline, not numeric totals over histories.",
          "ordering/pairing typestate, lockset and guard-dominance rules over clang CFGs"),
+ "C03": ("Static rules over source/allocator_sba.c: lockset on bin state and page counts through the allocator's lock function pointers (requires-lock helpers get the lock of the same bin from every call site and never drop it), alloc_count pairing per returned chunk / per free, exact page-release condition and the purge/unlink/tag-erase steps before it, small/large classification (tags, s_max_bin_size, size-class table, 16-byte alignment of header and classes), realloc copy bound and order, calloc zero length, destroy frees every page. Decides protocol and pairing, not disjointness over histories.",
+         "lockset with interprocedural lock context, pairing typestate, guard-dominance and constant-table rules over clang CFGs"),
 }
 NA_DEFAULT = "check not built yet in this commit (see DESIGN.md section 9 build order)"
 NA = {}
